@@ -649,9 +649,11 @@ func (g *gcImpl) build() string {
 	var b strings.Builder
 	fmt.Fprintf(&b, "package %s\n\n", g.pkg.Name)
 	text := strings.Join(g.allSigs, "\n")
+	var quals []string // the qualifiers the rendered text uses
 	for _, a := range g.ih.GetActive() {
 		if regexp.MustCompile(`(^|[^A-Za-z0-9_.])` + regexp.QuoteMeta(a.Alias) + `\.`).MatchString(text) {
 			fmt.Fprintf(&b, "import %s\n", a.ImportString())
+			quals = append(quals, a.Alias)
 		}
 	}
 	b.WriteString("\n" + strings.Join(g.rendered, "\n"))
@@ -667,6 +669,12 @@ func (g *gcImpl) build() string {
 	os.Remove(filepath.Join(tdir, "rendered_verif.go"))
 	if err == nil {
 		return "ok"
+	}
+	for _, q := range quals {
+		// the import line printed for a qualifier does not bind that qualifier
+		if regexp.MustCompile(`undefined: ` + regexp.QuoteMeta(q) + `\b`).MatchString(string(out)) {
+			return "fail:import-binding"
+		}
 	}
 	return "fail:" + classify(string(out))
 }
